@@ -232,6 +232,17 @@ impl WasmDspRuntime {
 
     /// Run the `mimium_main` (or global init) function if exported.
     pub fn run_main(&mut self) -> Result<(), String> {
+        let result = self.run_main_function();
+        // Stateful calls at global scope run once, on state cells of their own: what they
+        // leave in the state storage must not become the initial state of `dsp`, whose
+        // cells start at the same origin and are zero-initialised (as on the native VM).
+        if result.is_ok() {
+            self.engine.set_global_state_data(&[]);
+        }
+        result
+    }
+
+    fn run_main_function(&mut self) -> Result<(), String> {
         // Try "main" first (global initializer), then fall back to "mimium_main"
         match self.engine.execute_function("main", &[]) {
             Ok(_) => Ok(()),
